@@ -8,9 +8,32 @@ def gen_train_case(rng, encodings=None, coverages=(0.3, 0.6, 1.0), allow_ew=True
     items = trainlists.gen_list(rng, enc, allow_ew=allow_ew)
     # OMEN-starved trainings: a tiny learned alphabet and long n-grams leave (almost) no initial n-gram inside the alphabet, so often no OMEN level has any
     # keyspace; with coverage < 1 the trainer must refuse (or otherwise not write a Markov structure nothing can be generated from)
-    starved = rng.random() < 0.1
-    return {'save_sensitive': rng.random() < 0.3, 'items': [[p, k] for p, k in items], 'encoding': enc, 'coverage': rng.choice(list(coverages)) if rng.random() < 0.7 else (round(rng.uniform(0.05, 0.99), rng.choice([2, 3, 6])) if 0 not in coverages or rng.random() < 0.9 else 0), 'ngram': rng.choice([4, 5]) if starved else rng.choice([2, 3, 4, 5]),
-            'alphabet': rng.choice([3, 4, 5]) if starved else rng.choice([10, 100, 100, 100, 30, 100, 100, 10, 100, 100, 6, 4]), 'max_len': rng.choice(list(max_len_choices)), 'hseed': rng.getrandbits(32)}
+    starved = rng.random() < 0.06
+    if rng.random() < 0.3:
+        # passwords that begin / end with blanks (the blank is part of the password)
+        items = list(items) + [(w, rng.choice([1, 2])) for w in rng.sample([' lead1', 'trail2 ', '  two3', '\xa0nbsp7', ' Both8 ', 'in ner9'], rng.randint(1, 3)) if trainlists.encodable(w, enc)]
+    tiny = rng.random() < 0.05
+    if tiny:
+        # every password is shorter than the n-gram size (PINs, initials): OMEN learns nothing at all; such a list can only be trained with coverage 1
+        items = [(w, rng.choice([1, 2, 5])) for w in rng.sample(['1234', '0000', 'abc', 'Zq', '7', '!!', '2580', 'xy1', 'Abc!'], rng.randint(1, 5))]
+    case = {'save_sensitive': rng.random() < 0.3, 'prefixcount': rng.random() < 0.25, 'items': [[p, k] for p, k in items], 'encoding': enc, 'coverage': rng.choice(list(coverages)) if rng.random() < 0.7 else (round(rng.uniform(0.05, 0.99), rng.choice([2, 3, 6])) if 0 not in coverages or rng.random() < 0.9 else 0), 'ngram': rng.choice([4, 5]) if starved else rng.choice([2, 3, 4, 5]),
+            'alphabet': rng.choice([4, 5, 6]) if starved else rng.choice([10, 100, 100, 100, 30, 100, 100, 10, 100, 100, 6, 4]), 'max_len': rng.choice(list(max_len_choices)), 'hseed': rng.getrandbits(32)}
+    if tiny:
+        case['ngram'] = 5
+        if 1.0 in coverages or 1 in coverages:
+            case['coverage'] = 1.0
+    return case
+
+# Training lists for which no OMEN level has any keyspace (tiny alphabet, long n-grams) although smoothing succeeds: with coverage < 1 the trainer has to refuse,
+# or at least must not write a ruleset whose Markov structure nothing can be generated from.  Found by the random generator, kept as fixed cases.
+ZERO_KEYSPACE_CASES = [
+    {'items': [['zaq1example.orgκωδικος', 2], ['zaq1<31975', 1], ['αγαπηa.b@mail.ru8house', 1], ['αγαπη2001!"  ', 1], ['Dogηλιος', 2], ['99', 1], ['1999', 6]],
+     'encoding': 'utf-8', 'coverage': 0.6, 'ngram': 4, 'alphabet': 4, 'max_len': 21},
+    {'items': [['man1', 5], ['1qaz1984', 1], ['`1234991975', 1], ['super', 5], ['I<3;p', 2], ['supermaN1', 4], ['zaq112κωδικοΣA', 2], ['121I<3', 1], ['superhttp://www.site.net:p', 1]],
+     'encoding': 'iso-8859-7', 'coverage': 0.83, 'ngram': 5, 'alphabet': 10, 'max_len': 21},
+    {'items': [['blue', 5], ['bluehousE', 4], ['maN', 6], ['house', 4], ['1984', 1], ['1qaz2wsx', 1], ['8passwordpassword69', 1], ['99313378i<3', 6]],
+     'encoding': 'utf-8', 'coverage': 0.6, 'ngram': 5, 'alphabet': 4, 'max_len': 21},
+]
 
 def train_case(case, tag='tr', data=None, **extra):
     name, path = repo.new_rules_dir(tag)
